@@ -15,6 +15,7 @@ THEOREMS = [
     "GoaktVerif.C41.read_none",
     "GoaktVerif.C41.rejects",
     "GoaktVerif.C41.step_ok",
+    "GoaktVerif.C41.step_records",
     "GoaktVerif.C41.handleGet_tombed",
     "GoaktVerif.C41.reach_inv",
     "GoaktVerif.C41.C41_holds",
@@ -22,7 +23,7 @@ THEOREMS = [
 INPKG = ["actor/zz_verif_c41.go"]
 TIMEOUT = 900
 MANIFEST = {
-    "level_text": "Kernel-checked theorems over an executable model of the replicator's message handlers (abstract CRDT values, any Modify closure, clock and peers' answers as inputs): for EVERY sequence of update/delete/delta/tombstone/full-state/digest/batch/read-request/prune/local and coordinated Get messages, a tombstoned key is absent from the store (reach_inv, step_inv), reads of it answer nothing — coordinated reads included, whatever the peers answer (read_none, handleGet_tombed) —, updates/deltas/full-state entries for it are rejected (rejects), and the tombstone disappears only by a prune tick with now-deletedAt > ttl (step_keeps, prune_expires); C41_holds is the full statement. The model is tied to the code by driving real replicator actors message by message and comparing full state dumps.",
+    "level_text": "Kernel-checked theorems over an executable model of the replicator's message handlers (abstract CRDT values, any Modify closure, clock and peers' answers as inputs): for EVERY sequence of update/delete/delta/tombstone/full-state/digest/batch/read-request/prune/local and coordinated Get messages, a tombstoned key is absent from the store (reach_inv, step_inv), reads of it answer nothing — coordinated reads included, whatever the peers answer (read_none, handleGet_tombed) —, updates/deltas/full-state entries for it are rejected (rejects), the tombstone disappears only by a prune tick with now-deletedAt > ttl (step_keeps, prune_expires), and every delivered tombstone (local delete, peer tombstone, batch) is recorded whether or not the replica ever saw the key (step_records); C41_holds is the full statement. The model is tied to the code by driving real replicator actors message by message and comparing full state dumps.",
     "level_note": "Full statement proved for the current code (after fix eb69dd7; seeded/C41-revert-fix shows the check catching the original defect). Trusted: harness (in-memory network: collector actor as topic actor, fake cluster view and remoting that Ask the peer replicators), the tombstone-ageing accessor standing for the wall clock (time.Now() cannot be injected; ageing every deletedAt by d is equivalent to advancing the clock by d for handlePrune's comparison), G-counter as the only CRDT type in the scripts. Not modelled: watchers/notifications, metrics, snapshot restore (tombstones are not persisted: a restarted replicator forgets them), write coordination's extra direct sends, undecodable keys.",
     "technique": "Lean 4 inductive invariant over all message sequences of an executable state-machine model + per-message differential against real replicator actors (E4/E2)",
 }
@@ -46,6 +47,11 @@ def scenarios():
         out.append(f"n=2 ttl=3 u:1:k0:2 a:0:1 u:0:k0:1 d:0:k0 {probe} g:0:k0 q:0:k0 a:0:1 s:0:4 g:0:k0 a:1:0")
     # tombstone received from the peer, then stale messages
     out.append("n=3 ttl=2 u:1:k1:2 s:0:0 s:2:0 u:2:k1:5 d:1:k1 s:0:2 s:0:0 s:0:1 g:0:k1 u:0:k1:7 g:0:k1 s:2:1 s:2:2 g:2:k1")
+    # the tombstone reaches a replica BEFORE any update / delta for the key (it overtakes the create delta, or the
+    # replica missed it): it must be recorded all the same, and shadow the late delta / full state / local update
+    out.append("n=2 ttl=3 u:0:k0:7 d:0:k0 s:1:1 g:1:k0 s:1:0 g:1:k0 u:1:k0:1 g:1:k0 a:1:0 g:1:k0")
+    out.append("n=3 ttl=3 u:0:k1:7 s:1:0 d:0:k1 s:2:1 s:2:0 g:2:k1 a:2:1 s:2:2 g:2:k1 u:2:k1:1 g:2:k1 b:2:0 g:2:k1")
+    out.append("n=3 ttl=2 u:0:k0:3 u:0:k2:4 d:0:k0 d:0:k2 b:1:2,3,0,1 g:1:k0 g:1:k2 s:1:0 s:1:1 g:1:k0 g:1:k2 t:2:k1:0:9 u:2:k1:5 g:2:k1")
     # expiry: not yet, then yes, then the key can come back
     out.append("n=2 ttl=2 u:0:k0:1 d:0:k0 w:2 p:0 u:0:k0:1 g:0:k0 w:1 p:0 g:0:k0 u:0:k0:4 g:0:k0")
     out.append("n=2 ttl=0 u:0:k0:1 d:0:k0 p:0 g:0:k0 w:1 p:0 u:0:k0:2 g:0:k0")
@@ -135,6 +141,38 @@ def _view(d):
     return stored, tombs
 
 
+def _markers(res):
+    out = []
+    for m in res.split("+")[1:]:
+        if m.startswith("T("):
+            body = m[2:]
+            try:
+                out.append((body.split("/")[0], int(body.split(",")[-1].split(")")[0])))
+            except ValueError:
+                out.append(None)
+        else:
+            out.append(None)
+    return out
+
+
+def _delivered(p, r, log):
+    def from_log(i):
+        try:
+            e = log[int(i)] if int(i) >= 0 else None
+        except (ValueError, IndexError):
+            return []
+        return [e[0]] if e and e[1] != r else []
+    if p[0] == "d" and len(p) == 3:
+        return [p[2]]
+    if p[0] == "t" and len(p) == 5:
+        return [] if p[4] == str(r) else [p[2]]
+    if p[0] == "s" and len(p) == 3:
+        return from_log(p[2])
+    if p[0] == "b" and len(p) == 3:
+        return [k for i in p[2].split(",") for k in from_log(i)]
+    return []
+
+
 def py_judge(case, impl):
     f = case.split()
     if len(f) < 2 or not f[0].startswith("n=") or not f[1].startswith("ttl="):
@@ -145,6 +183,7 @@ def py_judge(case, impl):
         return f"bad op={min(len(toks), len(outs))} tok=- clause=parse wrong number of results"
     views = [([], []) for _ in range(n)]
     now = 100
+    log = []
     for idx, (tok, out) in enumerate(zip(toks, outs)):
         p = tok.split(":")
         if p[0] == "w":
@@ -171,7 +210,11 @@ def py_judge(case, impl):
         for k, at in before[1]:
             if not any(k2 == k for k2, _ in after[1]) and not (p[0] == "p" and now - at > ttl):
                 return f"bad op={idx} tok={tok} clause=keep"
+        for k in _delivered(p, who, log):
+            if not any(k2 == k for k2, _ in after[1]):
+                return f"bad op={idx} tok={tok} clause=record"
         views[who] = after
+        log += _markers(res)
     return "ok"
 
 
